@@ -36,6 +36,20 @@ Theorem C11_lwr_solves_block_YW :
 Proof. exact (@lwr_solves_block_YW_lemma). Qed.
 Print Assumptions C11_lwr_solves_block_YW.
 
+(* the innovation covariance identity and its symmetry, on their own *)
+Theorem C11_lwr_sigma_identity :
+  forall (R : Type) (O : rops R) (req : R -> R -> Prop), ring_laws O req ->
+  forall (r : list R) (P : nat),
+    length r = S P -> req (rtr O (nth 0 r (r0 O))) (nth 0 r (r0 O)) -> steps_ok O req r P ->
+    let sigma := snd (lwr_recursion O r) in let a := fst (lwr_recursion O r) in
+    req (rsum O (fun i => rmul O (coefA O a i) (Rlag O r 0 i)) (S P)) sigma /\ req (rtr O sigma) sigma.
+Proof.
+  intros R O req RL r P L Hs Hok.
+  pose proof (lwr_solves_block_YW_lemma O req RL r P L Hs Hok) as H.
+  destruct (lwr_recursion O r) as [a sigma]. simpl. tauto.
+Qed.
+Print Assumptions C11_lwr_sigma_identity.
+
 (* the invariants that carry the induction: both predictors satisfy their normal equations at
    every intermediate order, and one pass of the loop takes order p to order p + 1 *)
 Theorem C11_lwr_invariants :
@@ -312,7 +326,48 @@ Lemma C11_ex_fit_select :
   | FMOk o Rx cf _ => (o, length Rx, length cf) = (2, 3, 2)%nat | FMValueError => False end.
 Proof. vm_compute. reflexivity. Qed.
 
+(* crosscov / autocov on concrete data: lag 1 of channels (0, 1) is the mean of x0(t+1) x1(t) *)
+Lemma C11_ex_crosscov :
+  Qeq_bool (nth 1 (nth 1 (nth 0 (crosscov_vector ex_x ex_x 3) []) []) 0)
+           (sumn (fun t => nth (t + 1) (nth 0 ex_x []) 0 * nth t (nth 1 ex_x []) 0) 11 / 11) = true
+  /\ negb (Qeq_bool (nth 1 (nth 1 (nth 0 (crosscov_vector ex_x ex_x 3) []) []) 0)
+                    (nth 1 (nth 0 (nth 1 (crosscov_vector ex_x ex_x 3) []) []) 0)) = true.
+Proof. split; vm_compute; reflexivity. Qed.
+
+(* fit_model's hypothesis on the covariance provider is met by the model's own rxx_of *)
+Example C11_ex_rxx_length : forall x n, length (rxx_of x n) = n.
+Proof. exact rxx_of_length. Qed.
+
+(* MAR_est_solves: rows of equal length and invertible error covariances on concrete data *)
+Lemma ex_mar_ok0 : let '(_, _, sf, sb) := lwr_run (mat_ops 2) (rxx_of ex_x 3) 0 in
+  meqb 2 (mmul 2 (minv 2 sf) sf) (mid 2) && meqb 2 (mmul 2 (minv 2 sb) sb) (mid 2) = true.
+Proof. vm_compute. reflexivity. Qed.
+Lemma ex_mar_ok1 : let '(_, _, sf, sb) := lwr_run (mat_ops 2) (rxx_of ex_x 3) 1 in
+  meqb 2 (mmul 2 (minv 2 sf) sf) (mid 2) && meqb 2 (mmul 2 (minv 2 sb) sb) (mid 2) = true.
+Proof. vm_compute. reflexivity. Qed.
+Example C11_ex_MAR_est_hypotheses_met :
+  (forall i, (i < length ex_x)%nat -> length (nth i ex_x []) = length (nth 0 ex_x [])) /\
+  steps_ok (mat_ops (length ex_x)) (meq (length ex_x)) (rxx_of ex_x (2 + 1)) 2.
+Proof.
+  split.
+  - intros i Hi. destruct i as [|[|i]]; [reflexivity|reflexivity|simpl in Hi; lia].
+  - change (length ex_x) with 2%nat. change (2 + 1)%nat with 3%nat.
+    intros p Hp. destruct p as [|[|p]]; [| |lia].
+    + pose proof ex_mar_ok0 as H. destruct (lwr_run (mat_ops 2) (rxx_of ex_x 3) 0) as [[[a b] sf] sb].
+      apply andb_prop in H as [H1 H2]. split; apply meqb_sound; assumption.
+    + pose proof ex_mar_ok1 as H. destruct (lwr_run (mat_ops 2) (rxx_of ex_x 3) 1) as [[[a b] sf] sb].
+      apply andb_prop in H as [H1 H2]. split; apply meqb_sound; assumption.
+Qed.
+
 (* generate_mar: the module hypotheses are met by vectors = Q, matrices = Q *)
+Example C11_ex_generate_mar_hypotheses_met :
+  Equivalence Qeq /\ Proper (Qeq ==> Qeq ==> Qeq) Qplus /\
+  (forall a b c, a + (b + c) == (a + b) + c) /\ (forall a b, a + b == b + a) /\
+  (forall a, a + 0 == a) /\ (forall a b, (a - b) + b == a).
+Proof.
+  split; [exact Q_Setoid|]. split; [exact Qplus_comp|].
+  repeat split; intros; ring.
+Qed.
 Example C11_ex_generate_mar :
   let X := generate_mar_from Qminus Qmult 0 0 [1#2; -(1#4)] [1; 2; 3; 4] in
   X = [1; 3 # 2; 5 # 2; 25 # 8]%Q \/ Forall2 Qeq X [1; 3 # 2; 5 # 2; 25 # 8].
